@@ -2,7 +2,7 @@
    instantiated with the generated constants and the executable CRC-32C) on the streams on
    which the harness ran journal.Writer / journal.Reader, and returns the indexes of the
    cases whose observations disagree.  Depends on model files and Gen/InstJournal.v only. *)
-From GL Require Import Base.Bytes Codec.Crc Codec.Journal Gen.Consts Gen.InstJournal.
+From GL Require Import Base.Bytes Codec.Crc Codec.Journal Codec.JournalSpec Gen.Consts Gen.InstJournal.
 From Coq Require Import String.
 
 (* byte strings travel compressed: a hex literal, a run of n equal bytes, or n repetitions of
@@ -36,7 +36,11 @@ Inductive c12case :=
 (* the harness's reference encoder of the log format (independent of the journal package; the
    implementation's writer is compared with it in the harness) produced the stream from these
    records: the MODEL writer must produce the same bytes, with the given flush pattern *)
-| CEnc (fl : list bool) (recs : list (list seg)) (stream : list seg).
+| CEnc (fl : list bool) (recs : list (list seg)) (stream : list seg)
+(* the hypothesis of the damage / tail theorems: the harness's evaluation of no_forgery (checksums
+   on) for the records written and a damaged image of the same length gave this value; the
+   definition the theorems are stated with (Codec/JournalSpec.v) must give the same *)
+| CForgery (recs : list (list seg)) (stream : list seg) (holds : bool).
 
 Definition obs_eq (m : outcome) (o : obs) : bool :=
   match m, o with
@@ -69,6 +73,8 @@ Definition run_case (c : c12case) : bool :=
       (jcrc b =? v) && (if Nat.ltb (List.length b) 600 then masked_crc_bitwise jcp b =? v else true)
   | CEnc fl recs stream =>
       beq (jwrite jcrc jp fl (map segs_bytes recs)) (segs_bytes stream)
+  | CForgery recs stream holds =>
+      Bool.eqb (no_forgery jcrc jp true (map segs_bytes recs) (segs_bytes stream)) holds
   end.
 
 Fixpoint mism_from {A} (f : A -> bool) (i : N) (l : list A) : list N :=
